@@ -488,6 +488,26 @@ pub fn gen_c09_texts(tier: &str, seed: u64) -> Vec<String> {
             v.push(t);
         }
     }
+    // 2c. layouts the strict parser accepts although the field grammar of C10 does not generate them:
+    //     blanks between '!' and the name it negates, between the operator characters and around
+    //     the epoch colon; every accessor reading (rel.view) and normalisation (rel.wrap) sees them
+    for t in [
+        "a [! b]",
+        "a [! b !\n c]",
+        "a [!b ! c d]",
+        "a [ ! b ]",
+        "a <! x>",
+        "a <! x y>",
+        "a <x ! y> <!\n z>",
+        "libc6-dev [! hurd-i386 !\n kfreebsd-amd64], foo [!amd64]",
+        "a (>=\n1)",
+        "a ( >= 1 )",
+        "a (>= 1 : 2)",
+        "a : any",
+        "a:any(>= 1)[b]<c>",
+    ] {
+        v.push(t.to_string());
+    }
     // 3. seeded random well-formed fields, truncated at every position, plus one mutation each
     let mut rng = Rng::new(seed);
     let n = if thorough { 2000 } else { 300 };
